@@ -10,6 +10,7 @@ mod rec_more;
 mod rec_csc;
 mod rec_equil;
 mod rec_json;
+mod rec_chordal;
 mod replay_qdldl;
 mod replay_presolve;
 mod replay_update;
@@ -114,6 +115,18 @@ fn main() {
                 lines.push(rec_json::roundtrip_event(v["run"].as_u64().unwrap_or(0) as usize, &p, &args.get("dir", "/tmp"), sf, mu));
             }
             write_lines(&args.get("out", "json.ndjson"), &lines);
+        }
+        "dsu-replay" => {
+            let r = rec_chordal::dsu_replay_file(&args.get("in", "b.ndjson"), &args.get("out", "m.ndjson"));
+            println!("{}", r);
+        }
+        "chordal" => {
+            let out = args.get("out", "chordal.ndjson");
+            let wd = rec_more::Watchdog::start(format!("{}.hang.json", out), args.num("hang_secs", 60));
+            let (lines, meta) = rec_chordal::record(args.num("seed", 1), args.get("tier", "quick") == "thorough", &wd);
+            write_lines(&out, &lines);
+            std::fs::write(args.get("meta", "meta.json"), meta.to_string()).unwrap();
+            println!("{}", meta);
         }
         "csc" => {
             let (lines, meta) = rec_csc::record(args.num("seed", 1), args.get("tier", "quick") == "thorough");
